@@ -151,7 +151,8 @@ def check_normalize_and_csv(position, fe):
 def check_legacy_csv():
     """legacy merchant_categories.csv: a pattern that is not a valid regular expression (the loader does not compile patterns) makes just that
     rule inapplicable"""
-    bad_patterns = ['*TST COFFEE', '(UNCLOSED', 'A[', 'X{2,1}', '(?P<n>a)(?P<n>b)', '\\']
+    # (the last two do not fail with re.error: a repeat count >= 2**32 raises OverflowError, deeply nested groups RecursionError)
+    bad_patterns = ['*TST COFFEE', '(UNCLOSED', 'A[', 'X{2,1}', '(?P<n>a)(?P<n>b)', '\\', 'COSTCO #\\d{4294967296}', '(' * 400 + 'A' + ')' * 400]
     tmp = tempfile.mkdtemp(prefix='c08csv-')
     try:
         good = 'GOOD,Good Merchant,CatGood,SubGood,g\nOTHER,Other Merchant,CatOther,SubOther,\n'
